@@ -150,6 +150,9 @@ def is_self_class_ctor(call):
         return True
     if isinstance(fn, ast.Name) and fn.id == "cls":
         return True
+    # type(self)(...)
+    if isinstance(fn, ast.Call) and isinstance(fn.func, ast.Name) and fn.func.id == "type" and len(fn.args) == 1 and isinstance(fn.args[0], ast.Name) and fn.args[0].id == "self":
+        return True
     return False
 
 
